@@ -14,8 +14,9 @@ import subprocess
 import sys
 import time
 
-MREPO = '/tmp/wt/mrepo'
-VM = '/tmp/vm'
+SLOT = os.environ.get('SEED_SLOT', '')
+MREPO = '/tmp/wt/mrepo' + SLOT
+VM = '/tmp/vm' + SLOT
 ALL = ['C%02d' % i for i in range(1, 20)]
 
 
@@ -42,7 +43,7 @@ def ensure_mrepo():
 
 def sync_vm():
     """/tmp/vm := the committed state of /verif (HEAD), keeping build products of earlier runs"""
-    exp = '/tmp/vm_export'
+    exp = '/tmp/vm_export' + SLOT
     sh(['rm', '-rf', exp])
     os.makedirs(exp)
     rc, out = sh('git -C /verif archive HEAD | tar -x -C ' + exp)
